@@ -14,7 +14,7 @@ import (
 func init() {
 	register(&Check{
 		ID:   "C18",
-		Rule: "case = (struct type, value) from the C01 corpus (every map key/value cell at 0/1/2/8/9/14/27/53/105/209 entries, every list/set cell, nested containers, by-value and pointer structs, non-empty unknown-field holders, static zoo types, random composites). After one warm-up call, runtime.MemStats.Mallocs is read around K=50 calls of EncodedSize(ptr) and around K=50 calls of EncodeObject(buf>=size, nil, ptr) in a plain-build child with GC off; up to 5 attempts, violation iff the minimum delta over the attempts is > 0 (a real regression allocates on every call, sporadic runtime noise does not). distinct = distinct type-shape signature; non-trivial = the message has at least one field",
+		Rule: "case = (struct type, value) from the C01 corpus (every map key/value cell at 0/1/2/8/9/14/27/53/105/209 entries, every list/set cell, nested containers, by-value and pointer structs, non-empty unknown-field holders, static zoo types, random composites). After one warm-up call, runtime.MemStats.Mallocs is read around K=50 calls of EncodedSize(ptr) and around K=50 calls of EncodeObject(buf>=size, nil, ptr) in a plain-build child with GC off; up to 5 attempts, the same for calls alternating with the previous case's type; violation iff the minimum delta over the attempts is > 0 (a real regression allocates on every call, sporadic runtime noise does not). distinct = distinct type-shape signature; non-trivial = the message has at least one field",
 		Plan: func(tier string) []BuildPlan {
 			if tier == "thorough" {
 				return []BuildPlan{{"plain", encEnumerated + 400000}}
@@ -29,6 +29,11 @@ func init() {
 		},
 	})
 }
+
+var (
+	c18PrevPtr interface{}
+	c18PrevBuf []byte
+)
 
 func mallocs() uint64 {
 	var ms runtime.MemStats
@@ -84,6 +89,21 @@ func runC18(c *harness.Ctx, idx int) {
 	if d := measure(func() { n, _ := frugal.EncodeObject(buf, nil, ptr); sink += n }); d > 0 {
 		c.Violation("encode-allocates", "C18/encode-allocates/"+sig, "EncodeObject(buf, nil, ptr) allocates: at least %d heap objects per %d calls in every one of 5 attempts (type %s)", d, K, cc.S.Sig())
 	}
+	// alternating between two already used types must not allocate either
+	if c18PrevPtr != nil {
+		prev, pbuf := c18PrevPtr, c18PrevBuf
+		if d := measure(func() { sink += frugal.EncodedSize(prev) + frugal.EncodedSize(ptr) }); d > 0 {
+			c.Violation("size-allocates", "C18/size-allocates-alternating", "EncodedSize allocates when calls alternate between two already used types: at least %d heap objects per %d alternations in every one of 5 attempts (types %s and the previous case's)", d, K, cc.S.Sig())
+		}
+		if d := measure(func() {
+			n1, _ := frugal.EncodeObject(pbuf, nil, prev)
+			n2, _ := frugal.EncodeObject(buf, nil, ptr)
+			sink += n1 + n2
+		}); d > 0 {
+			c.Violation("encode-allocates", "C18/encode-allocates-alternating", "EncodeObject allocates when calls alternate between two already used types: at least %d heap objects per %d alternations in every one of 5 attempts", d, K)
+		}
+	}
+	c18PrevPtr, c18PrevBuf = ptr, buf
 	c.Count("calls_measured", 2*K)
 	_ = ref.Encode
 	c.Sample(map[string]string{"type": cc.S.Describe(), "bytes": fmt.Sprint(len(want))})
